@@ -61,16 +61,15 @@ impl<'a, Q: Query> QueryOne<'a, Q> {
     }
 
     /// Helper to change the type of the query
-    fn transform<R: Query>(mut self) -> QueryOne<'a, R> {
-        let x = QueryOne {
+    fn transform<R: Query>(self) -> QueryOne<'a, R> {
+        // `R` may not be satisfied by an archetype that satisfies `Q`, so a borrow already taken
+        // for `Q` cannot be handed over: dropping `self` releases it.
+        QueryOne {
             archetype: self.archetype,
             index: self.index,
-            borrowed: self.borrowed,
+            borrowed: false,
             _marker: PhantomData,
-        };
-        // Ensure `Drop` won't fire redundantly
-        self.borrowed = false;
-        x
+        }
     }
 }
 
